@@ -396,7 +396,7 @@ fn grid_points(shape: &str, a: f64, b: f64, n: usize) -> Vec<f64> {
 
 /// one integration case.  The reference is the *same quadrature formula* evaluated in linear
 /// space (not the true integral); the comparison is made relative to the largest weighted operand.
-fn check_integration(method: &str, dens: &str, a0: f64, b0: f64, n: usize, shape: &str, cc: &mut CaseCtx) {
+fn check_integration(method: &str, dens: &str, a0: f64, b0: f64, n: usize, shape: &str, by_index: bool, cc: &mut CaseCtx) {
     let mut a = Acc::new();
     let op = match method {
         "trapezoid" => "ln_trapezoidal_integrate_exp",
@@ -404,7 +404,16 @@ fn check_integration(method: &str, dens: &str, a0: f64, b0: f64, n: usize, shape
         _ => "ln_trapezoidal_integrate_grid_exp",
     };
     let xs = grid_points(shape, a0, b0, n);
-    let f = |_: usize, x: f64| LogProb(ln_density(dens, a0, b0, x));
+    // the density closure receives (index, x); a tabulated density looks its value up by index
+    // (only for the grid helper, whose indices are the positions in the caller's own grid)
+    let table: Vec<f64> = xs.iter().map(|&x| ln_density(dens, a0, b0, x)).collect();
+    let f = |i: usize, x: f64| {
+        if by_index {
+            LogProb(table[i])
+        } else {
+            LogProb(ln_density(dens, a0, b0, x))
+        }
+    };
     let r = guard(|| match method {
         "trapezoid" => *LogProb::ln_trapezoidal_integrate_exp(f, a0, b0, n),
         "simpson" => *LogProb::ln_simpsons_integrate_exp(f, a0, b0, n),
@@ -660,6 +669,26 @@ fn check_near_equal(p: f64, span: i64, cc: &mut CaseCtx) {
     a.finish(cc)
 }
 
+/// p and q = p*(1+delta) for a ladder of relative distances in LOG space (the shortcut of
+/// ln_sub_exp compares the log values, where a tiny relative distance can still be a large
+/// ratio of the probabilities when |ln p| is large)
+fn check_near_equal_rel(p: f64, cc: &mut CaseCtx) {
+    let mut a = Acc::new();
+    for e in 1..=12 {
+        for m in [1.0, 2.0, 5.0] {
+            let delta = m * 10f64.powi(-e);
+            let q = p * (1.0 + delta);
+            if q <= p && q.is_finite() {
+                chk_sub(&mut a, p, q);
+                chk_add(&mut a, p, q);
+            }
+        }
+    }
+    a.finish(cc)
+}
+
+const NEAR_EQUAL_REL_BASES: &[f64] = &[-1e-12, -1e-6, -0.01, -0.5, -1.0, -3.0, -10.0, -30.0, -100.0, -300.0, -499.0, -600.0, -700.0, -744.0, -1000.0, -1e5];
+
 const NEAR_EQUAL_BASES: &[f64] = &[-0.0, -5e-324, -1e-300, -1e-9, -0.001, -0.693, -1.0, -37.0, -100.0, -499.99999999999994, -500.0, -745.0, -1e6];
 
 fn check_empty_sum(cc: &mut CaseCtx) {
@@ -781,8 +810,14 @@ fn run_misc(tier: Tier, ctx: &mut Ctx) {
                     }
                     ctx.case(
                         || json!({"kind": "integrate", "method": method, "density": dens, "a": fv(a0), "b": fv(b0), "n": n, "grid": shape}),
-                        |cc| check_integration(method, dens, a0, b0, n, shape, cc),
+                        |cc| check_integration(method, dens, a0, b0, n, shape, false, cc),
                     );
+                    if method == "grid" {
+                        ctx.case(
+                            || json!({"kind": "integrate", "method": method, "density": dens, "a": fv(a0), "b": fv(b0), "n": n, "grid": shape, "by_index": true}),
+                            |cc| check_integration(method, dens, a0, b0, n, shape, true, cc),
+                        );
+                    }
                 }
             }
         }
@@ -799,6 +834,9 @@ fn run_misc(tier: Tier, ctx: &mut Ctx) {
     let span = tier.pick(4096, 65536);
     for &p in NEAR_EQUAL_BASES {
         ctx.case(|| json!({"kind": "near-equal", "p": fv(p), "span_ulps": span}), |cc| check_near_equal(p, span, cc));
+    }
+    for &p in NEAR_EQUAL_REL_BASES {
+        ctx.case(|| json!({"kind": "near-equal-rel", "p": fv(p)}), |cc| check_near_equal_rel(p, cc));
     }
     ctx.case(|| json!({"kind": "empty-sum"}), check_empty_sum);
 }
@@ -909,6 +947,10 @@ impl Prop for C15Prop {
                 (Some(c), Some(f), Some(len)) => ctx.case(|| case.clone(), |cc| check_ulp_block(c, f, len, cc)),
                 _ => bad(ctx),
             },
+            "near-equal-rel" => match unfv(&case["p"]) {
+                Some(p) => ctx.case(|| case.clone(), |cc| check_near_equal_rel(p, cc)),
+                _ => bad(ctx),
+            },
             "near-equal" => match (unfv(&case["p"]), case["span_ulps"].as_i64()) {
                 (Some(p), Some(s)) => ctx.case(|| case.clone(), |cc| check_near_equal(p, s, cc)),
                 _ => bad(ctx),
@@ -919,7 +961,8 @@ impl Prop for C15Prop {
                 let shape = case["grid"].as_str().unwrap_or("uniform").to_string();
                 match (unfv(&case["a"]), unfv(&case["b"]), case["n"].as_u64()) {
                     (Some(a0), Some(b0), Some(n)) if n >= 2 => {
-                        ctx.case(|| case.clone(), |cc| check_integration(&method, &dens, a0, b0, n as usize, &shape, cc))
+                        let by_index = case["by_index"].as_bool().unwrap_or(false);
+                        ctx.case(|| case.clone(), |cc| check_integration(&method, &dens, a0, b0, n as usize, &shape, by_index, cc))
                     }
                     _ => bad(ctx),
                 }
